@@ -1,7 +1,37 @@
 import Comdex.Lemmas.LendRates
 import Comdex.Lemmas.Accrual
+import Comdex.Lemmas.AccrualErr
 /-!
-# C18 — accrual laws (part a: x/lend, pure 18-digit fixed point)
+# C18 — Interest and savings accrual is non-negative, monotone and zero over zero time
+
+Two families. (a) `x/lend` — pure 18-digit fixed point, `Model/LendRates.lean`: PROVED for all admissible
+parameters. (b) `x/rewards` `CalculationOfRewards` (vault stability fee, locker savings) — goes through Go's
+`math.Pow` on `float64`; `Model/Accrual.lean` models everything except `math.Pow` exactly (IEEE-754 round to
+nearest even of `-`, `*`, decimal→double, double→18 decimals) and the theorems are relative to the explicit
+hypotheses `FloatOps` / `PowMonoTime` / `PowMonoRate` about `math.Pow`, which the harness TESTS: PARTIAL.
+
+Property clause → theorem
+(a) lending rewards, borrow interest (variable: `indexInterest`, stable: `stableInterest`, reserve share: `indexInterest`)
+* never negative                                   → `reward_nonneg`
+* zero when no time has elapsed                    → `reward_zero_at_zero_time`
+* never decrease in time / principal / rate        → `reward_mono`, `stable_interest_mono`
+* two consecutive intervals ≤ combined + rounding  → `two_step_le_one_step_plus_rounding` (≤ 4·10⁻¹⁸ per unit of principal),
+                                                     `stable_two_step_le_one_step_plus_rounding` (≤ 10⁻¹⁸)
+* borrow rates non-decreasing in utilisation       → `borrow_rate_mono_in_util` (variable and stable), `utilisation_in_unit_interval`
+* equal the base rate at zero utilisation          → `rate_at_zero_is_base`
+* continuous at the optimal-utilisation kink       → `rate_continuous_at_kink` (branches agree exactly at the kink; explicit bound from below)
+* lend rate never exceeds borrow rate              → `lend_rate_le_borrow_rate`
+* (no division by zero for admissible parameters)  → `rates_defined`; keeper functions in terms of the above: `accrual_functions`
+(b) stability fee on vaults, savings on lockers (`interest`), relative to the hypotheses about `math.Pow`
+* never negative                                   → `interest_nonneg`                      (uses `pow ≥ 1`)
+* zero when no time has elapsed                    → `interest_zero_at_zero_time`           (uses `pow x 0 = 1`)
+* never decrease in principal                      → `interest_mono_partial` (first part, unconditional beyond `pow ≥ 1`)
+* never decrease in time / rate                    → `interest_mono_partial` (given `PowMonoTime` / `PowMonoRate`);
+     these two hypotheses are FALSE of Go's `math.Pow` in the last bit, and the code's result does decrease:
+                                                     `interest_mono_time_counterexample`, `interest_mono_rate_counterexample`
+* two consecutive intervals ≤ combined + rounding  → `more_frequent_accrual_not_more` (explicit error term `Accrual.subaddErr`)
+* tracker: whole units paid, fraction carried      → `tracker_never_negative`, `whole_units_paid_fraction_carried`
+* hypotheses are consistent                        → `hypotheses_consistent`; `calcRewards_ok` links `calcRewards` and `interest`
 -/
 namespace Comdex.C18
 open Comdex Comdex.LendRates
@@ -226,7 +256,7 @@ theorem interest_zero_at_zero_time (ops : FloatOps) (n : Int) (lsr : Dec) (hl : 
 
 /-- **Never decreases when the principal increases** (needs nothing of the power function beyond `≥ 1`), and,
 given that the power function is monotone on the reachable grid, when **the elapsed time or the rate increases**. -/
-theorem interest_mono (ops : FloatOps) (n n' : Int) (lsr lsr' : Dec) (s s' : Int)
+theorem interest_mono_partial (ops : FloatOps) (n n' : Int) (lsr lsr' : Dec) (s s' : Int)
     (hn : 0 ≤ n) (hnn : n ≤ n') (hl : 0 ≤ lsr) (hs : 0 ≤ s) :
     interest ops n lsr s ≤ interest ops n' lsr s ∧
     (PowMonoTime ops → s ≤ s' → interest ops n lsr s ≤ interest ops n' lsr s') ∧
@@ -306,5 +336,52 @@ theorem whole_units_paid_fraction_carried (tr : Dec) (xs : List Dec) (ht : 0 ≤
           = (trackerStep tr x).1 * Dec.P + (trackerRun (trackerStep tr x).2 xs).1 * Dec.P := by ring
       rw [this]; linarith
 
+/-- **Two consecutive intervals on the same principal never yield more than one accrual over the combined
+interval, beyond an explicit error term**: `subaddErr E a c = 10¹⁸·a·(c·(1/E)·(1+2⁻⁵³)² + (c−1)·2⁻⁵¹) + 2` raw
+units, `a` the principal and `c` the power value of the combined interval as real numbers, `1/E` the tested
+slack of quasi-multiplicativity of `math.Pow`. Derived from `(A−1)+(B−1) ≤ AB−1`, lifted through the three
+roundings of each accrual (relative error `2⁻⁵³` each, half an ulp of the 18-digit format). -/
+theorem more_frequent_accrual_not_more (ops : FloatOps) (n : Int) (lsr : Dec) (s t : Int)
+    (hn : 0 ≤ n) (hn63 : n ≤ 2 ^ 63) (hl : 0 ≤ lsr) (hs : 0 ≤ s) (ht : 0 ≤ t) :
+    ((interest ops n lsr s + interest ops n lsr t : Int) : ℚ) ≤
+      ((interest ops n lsr (s + t) : Int) : ℚ) + subaddErr ops.E (aF n) (ops.pow (xF lsr) (yF (s + t))) :=
+  two_interval ops n lsr s t hn hn63 hl hs ht
+
 end floating
+
+/-! ## non-vacuity: the hypotheses of the theorems are satisfiable on ordinary values -/
+section examples
+open Comdex.Accrual
+
+/-- the parameters of the repository's own lend tests: uOpt 0.8, base 0.002, slope1 0.1, slope2 3.0, reserve factor 0.1 -/
+example : admissible ⟨800000000000000000, 2000000000000000, 100000000000000000, 3000000000000000000,
+    2000000000000000, 100000000000000000, 3000000000000000000, 100000000000000000⟩ = true := by decide
+example : borrowRate ⟨800000000000000000, 2000000000000000, 100000000000000000, 3000000000000000000,
+    2000000000000000, 100000000000000000, 3000000000000000000, 100000000000000000⟩ false 400000000000000000
+    = some 52000000000000000 := by decide
+example : borrowRate ⟨800000000000000000, 2000000000000000, 100000000000000000, 3000000000000000000,
+    2000000000000000, 100000000000000000, 3000000000000000000, 100000000000000000⟩ false 900000000000000000
+    = some 1602000000000000000 := by decide
+example : lendRate ⟨800000000000000000, 2000000000000000, 100000000000000000, 3000000000000000000,
+    2000000000000000, 100000000000000000, 3000000000000000000, 100000000000000000⟩ 400000000000000000
+    = some 18720000000000000 := by decide
+example : utilisation 600 400 = some 400000000000000000 := by decide
+/-- 5 % on 10⁹ over one year from index 1.0: interest 5·10⁷, new index 1.05 -/
+example : lendReward 1000000000 50000000000000000 1000000000000000000 1900000000 (1900000000 - 31557600)
+    = .ok [50000000000000000000000000, 1050000000000000000] := by decide
+/-- two half years against one year on the same principal (index moved on by the first accrual) -/
+example : indexInterest 1000000000 50000000000000000 1000000000000000000 15778800
+        + indexInterest 1000000000 50000000000000000 1025000000000000000 15778800
+        ≤ indexInterest 1000000000 50000000000000000 1000000000000000000 31557600 + 4 * 1000000000 := by decide
+example : stableInterest 1000000000 90000000000000000 86400 = 246406570841889090000000 := by decide
+/-- tracker: 0.7 carried + 0.6 accrued ⇒ 1 paid, 0.3 carried -/
+example : trackerStep 700000000000000000 600000000000000000 = (1, 300000000000000000) := by decide
+example : trackerRun 0 [700000000000000000, 600000000000000000, 2900000000000000000] = (4, 200000000000000000) := by decide
+/-- post-pow pipeline on the value `math.Pow(1.1, 1.0) = 1.1`: 10 % of 10⁹ (with the float error in the 9th decimal) -/
+example : (ofBits 4607632778762754458).map (fun p => calcRewards 1000000000 100000000000000000 31557600 (some p))
+    = some (.ok 100000000000000089406967163) := by decide +kernel
+example : xF 100000000000000000 = 4953959590107546 * 2 ^ 1022 := by decide +kernel
+example : yF 15778800 = 2 ^ 1073 := by decide +kernel
+
+end examples
 end Comdex.C18
